@@ -60,16 +60,15 @@ def env_rules(ctx, m, owners, submissions=True):
             ctx.lost("snapshot", "%s cached level-2 snapshot field (found %s)" % (owner, snap))
             continue
         sf = snap[0]
-        writers = []
-        for f in ctx.prog.find(crate="bourse_de", adt=owner):
-            if f.impl_trait is not None:
-                continue
-            for w in m.q(f).writes():
-                if w.root[0] == "param" and w.root[1] == 1 and w.names[:1] == [sf]:
-                    writers.append((f, w))
-        ok = len(writers) == 1 and writers[0][0].name == "step"
-        ctx.check(ok, "snapshot", owner + "|writers", writers[0][1].loc() if writers else "-", "the cached snapshot is assigned only in step (and built in new)",
-                  "cached snapshot assigned in %s" % [f.name for f, _w in writers])
+        # who may write the snapshot: judged on the public functions (their effect summaries are
+        # transitive, so private helpers are accounted to the public function that uses them)
+        pubs = [f for f in ctx.prog.find(crate="bourse_de", adt=owner) if f.impl_trait is None and f.pub]
+        writing = [f.name for f in pubs if any(w[0] == 1 and w[1][:1] == (sf,) for w in E.summary(f)["writes"])]
+        ctx.check(writing == ["step"], "snapshot", owner + "|writers", ctx.loc(getter("step")), "among the public functions only step (and the constructor) assigns the cached snapshot",
+                  "cached snapshot may be written by %s" % writing)
+        writers = [(step.f, w) for w in step.q.writes() if w.root == ("param", 1, "self") and w.names[:1] == [sf]]
+        ctx.check(len(writers) == 1, "snapshot", owner + "|single-assignment", writers[0][1].loc() if writers else ctx.loc(step.f), "step assigns the snapshot exactly once",
+                  "step assigns the snapshot %d times" % len(writers))
         for f, w in writers:
             if f.name != "step":
                 continue
